@@ -40,7 +40,9 @@
    - the database, the Answer identities and the allocation counter are threaded through ALL of it: what
      a discarded branch (the goals before a cut, a condition, the goal of a \+) has written stays.
    Not modelled here: call/N, findall (C09); a program is a list of clauses (name, number of variables,
-   head arguments, list of goals).  GPop / GCommit never occur in a source program (clause_ok).
+   head arguments, list of goals).  GPop / GCommit never occur in a source program (DbProgCut.src_prog; the
+   safety theorems of DbProgThms / DbProgInv / DbProgSim hold for every list of goals, markers or not; DbProgCut.v
+   proves, for source programs, that a query ends with flag None: a cut is not propagated to the caller).
 
    The result of [solve] carries, besides the answers (the stores at the solutions, in order), the
    trace of the atomic database updates in the order in which they happened, in the vocabulary of the
